@@ -110,18 +110,26 @@ RULE_COMP = ("one case = one (input, configuration, call schedule) driven throug
              "non-trivial = every case")
 
 
+def mc_deflate_core(c):
+    for z in ("TRUE", "FALSE"):
+        c.model_check("MC_DeflateCore", "MC_DeflateCore_%s%s.cfg" % (z, "_big" if thorough(c) else ""), workers=6)
+
+
 def check_C02(c):
     mc_params(c)
+    mc_deflate_core(c)
     c.scenario("streamcomp")
     return c.finish("model_checking", RULE_COMP, TRUST)
 
 
 def check_C12(c):
+    mc_deflate_core(c)
     c.scenario("flushes")
     return c.finish("model_checking", RULE_COMP, TRUST)
 
 
 def check_C14(c):
+    mc_deflate_core(c)
     c.scenario("deflate_protocol")
     return c.finish("model_checking", RULE_COMP, TRUST)
 
